@@ -1,5 +1,5 @@
 //! conversions between the spec's plain representation and the real types (through the hooks)
-use crate::spec::rules::{SBoard, SMove};
+use crate::spec::rules::{has, SBoard, SMove};
 use chess_bitboard::{BitBoard, Color, File, Piece, Pos, PromotionPiece};
 use chess_movegen::raw::RawBoard;
 use chess_movegen::{Board, ChessMove};
@@ -75,4 +75,45 @@ pub fn to_move(m: SMove) -> ChessMove {
 }
 pub fn of_move(m: ChessMove) -> SMove {
     SMove { from: m.source as u8, to: m.dest as u8, promo: m.piece.map(|p| p as u8) }
+}
+
+pub fn piece(p: u8) -> Piece {
+    Piece::from_u8(p).unwrap()
+}
+pub fn pos(s: u8) -> Pos {
+    Pos::from_u8(s).unwrap()
+}
+/// the definition of the piece hash: xor over all squares of the key of the piece standing there
+/// (real key table, read through the public accessor)
+pub fn spec_piece_hash(s: &SBoard) -> u64 {
+    // written with concrete table indices (square, colour, piece all loop counters) so that the
+    // model checker reads 768 constants instead of doing 64 symbolic table lookups; on a
+    // well-formed placement at most one (colour, piece) holds per square
+    let mut h = 0u64;
+    let mut q = 0u8;
+    while q < 64 {
+        let mut c = 0u8;
+        while c < 2 {
+            let mut p = 0u8;
+            while p < 6 {
+                if has(s.colors[c as usize], q) && has(s.pieces[p as usize], q) {
+                    h ^= chess_lookup::zobrist(pos(q), piece(p), color(c));
+                }
+                p += 1;
+            }
+            c += 1;
+        }
+        q += 1;
+    }
+    h
+}
+/// the definition of the full position hash
+pub fn spec_hash(s: &SBoard) -> u64 {
+    spec_piece_hash(s)
+        ^ chess_lookup::turn_zobrist(color(s.turn))
+        ^ match s.ep {
+            Some(f) => chess_lookup::en_passant_zobrist(File::from_u8(f).unwrap()),
+            None => 0,
+        }
+        ^ chess_lookup::castle_rights_zobrist(s.rights as usize)
 }
